@@ -181,6 +181,14 @@ func (c *curvePoint) Add(a, b *curvePoint, pool *bnPool) {
 }
 
 func (c *curvePoint) Double(a *curvePoint, pool *bnPool) {
+	if c == a {
+		// a.y is read again after c.y has been written: double a copy when the receiver aliases the operand.
+		tmp := newCurvePoint(pool)
+		tmp.Set(a)
+		c.Double(tmp, pool)
+		tmp.Put(pool)
+		return
+	}
 	// See http://hyperelliptic.org/EFD/g1p/auto-code/shortw/jacobian-0/doubling/dbl-2009-l.op3
 	A := pool.Get().Mul(a.x, a.x)
 	A.Mod(A, p)
